@@ -883,6 +883,46 @@ class Machine:
                 g[A[1]] = simp(v << n if op == 'SHLQ' else z3.LShR(v, n))
             self.flags = None
             return None
+        if op in ('KORTESTW', 'KORTESTB', 'KORTESTQ', 'KORTESTD'):
+            w = {'B': 8, 'W': 16, 'D': 32, 'Q': 64}[op[-1]]
+            a, b = self.k[int(A[0][1:])], self.k[int(A[1][1:])]
+            if isinstance(a, int) and isinstance(b, int):
+                r = (a | b) & ((1 << w) - 1)
+            elif TAINT[0]:
+                r = SEC(w)
+            else:
+                r = simp(z3.Extract(w - 1, 0, bv(a, 64)) | z3.Extract(w - 1, 0, bv(b, 64)))
+            self.flags = ('result', r, w)      # ZF = (k1 | k2) == 0; the carry flag (all ones) is not modelled
+            return None
+        if op in ('VPTESTMQ', 'VPTESTMD', 'VPTESTNMQ', 'VPTESTNMD'):
+            cls = A[0][0] if A[0][0] in 'XYZ' else A[1][0]
+            n = self.vwidth(cls)
+            x, y = self.vsrc(A[0], n, pc), self.vsrc(A[1], n, pc)
+            step = 2 if op.endswith('Q') else 1
+            neg = 'NM' in op
+            bits = []
+            for i in range(0, n, step):
+                ands = [self.l_and(x[i + j], y[i + j]) for j in range(step)]
+                if all(isinstance(t, int) for t in ands):
+                    nz = any(t != 0 for t in ands)
+                    bits.append(int(nz != neg))
+                elif TAINT[0]:
+                    bits.append(None)
+                else:
+                    nzc = z3.Or(*[bv(t, 32) != 0 for t in ands])
+                    bits.append(z3.If(z3.Not(nzc) if neg else nzc, z3.BitVecVal(1, 64), z3.BitVecVal(0, 64)))
+            if any(b is None for b in bits):
+                val = SEC(64)
+            elif all(isinstance(b, int) for b in bits):
+                val = sum(b << i for i, b in enumerate(bits))
+            else:
+                val = 0
+                for i, b in enumerate(bits):
+                    t = (bv(b, 64) << i) if not isinstance(b, int) else (b << i)
+                    val = t if (isinstance(val, int) and val == 0) else (bv(val, 64) | bv(t, 64))
+                val = simp(val)
+            self.k[int(A[2][1:])] = val
+            return None
         if op == 'KMOVW':
             v = self.src_val(A[0], 64, pc)
             if not isinstance(v, int):
@@ -920,6 +960,8 @@ class Machine:
 
     def kmask(self, kname, n):
         m = self.k[int(kname[1:])]
+        if not isinstance(m, int):
+            raise AsmUnsupported('data-dependent write mask ' + kname)
         return [(m >> i) & 1 for i in range(n)]
 
     @staticmethod
